@@ -100,9 +100,15 @@ def gen_layout(rng, members, feature):
         BIG_ROT[0] += 1
         lay["folders"] = [(["copy", "deflate", "deflate64", "lzma2", "bzip2"][BIG_ROT[0] % 5], streams)] if streams else []
     elif feature == "combo":
+        # every orthogonal layout axis drawn independently: a reader that handles each feature alone can still
+        # mishandle two together (several folders AND data away from offset 0, folder CRCs AND padding, ...)
         lay["packcrc"] = rng.random() < 0.5
+        lay["packpos"] = rng.choice([0, 1, 7, 53, 300])
         lay["dummy"] = rng.choice([0, 0, 2, 5])
         lay["header"] = rng.choice(["raw", "lzma"])
+        lay["crc_place"] = rng.choice(["sub", "sub", "none", "partial"])
+        lay["nonminimal"] = rng.random() < 0.2
+        lay["emptyfile_vector"] = rng.random() < 0.8
     return lay
 
 
@@ -137,6 +143,9 @@ def tweak_members(rng, members, feature):
             files.append(m)
         for m, n in zip(files, [600000, 600000, 300000, 500000, 37, 70000, 1]):
             m["data"] = rng.randbytes(n // 2) + bytes(n - n // 2)
+    elif feature == "combo":
+        sub = rng.choice(["partial-mtime", "partial-attr", "ctime-atime", "win-attr", None, None])
+        return tweak_members(rng, ms, sub) if sub else ms
     elif feature == "win-attr":
         for m in ms:
             if m["kind"] in ("file", "emptyfile"):
@@ -306,7 +315,7 @@ def run(ctx):
     cases = []
     per = 12 if ctx.thorough else 3
     for feat in FEATURES:
-        for _ in range(per):
+        for _ in range(per * 8 if feat == "combo" else per):
             members = tweak_members(rng, gen_logical(rng), feat)
             lay = gen_layout(rng, members, feat)
             try:
